@@ -28,9 +28,16 @@ Proof. exact CycleProof.model_holds. Qed.
 Print Assumptions C15_model_holds.
 
 (* the boolean decider applied to the implementation's output implies the Prop-level property *)
-Theorem C15_decider_sound : forall G out, wf_refs G -> check_C15 G out = true -> C15_holds G out.
+Theorem C15_decider_sound : forall G out, wf_refs G -> check_C15g G out = true -> C15_holds G out.
 Proof. exact CycleProof.decider_sound. Qed.
 Print Assumptions C15_decider_sound.
+
+(* the same with depends_on as written in the files (ids or branch labels): load_raw = load after resolution *)
+Theorem C15_raw : forall R, wf_refs (resolve_graph R) ->
+  C15_holds (resolve_graph R) (load_raw R) /\
+  (forall out, check_C15 R out = true -> C15_holds (resolve_graph R) out).
+Proof. intros R WF. split; [apply raw_model_holds; auto|]. intros out H. apply CycleProof.decider_sound; auto. Qed.
+Print Assumptions C15_raw.
 
 (* the elimination loop alone decides acyclicity of any parent function closed in the graph *)
 Theorem C15_kahn_iff : forall f G, NoDup (ids G) -> (forall r, In r G -> incl (f r) (ids G)) ->
